@@ -12,7 +12,7 @@ CaseActs(b, r) ==
     LET route == RouteOf(r)
         hops  == [i \in 1..(2 * Len(route)) |->
                      [a |-> IF i % 2 = 1 THEN "XSend" ELSE "XRecv", hop |-> (i + 1) \div 2,
-                      L |-> route[(i + 1) \div 2].L, from |-> route[(i + 1) \div 2].from]]
+                      L |-> route[(i + 1) \div 2].L, from |-> route[(i + 1) \div 2].from, m |-> route[(i + 1) \div 2].m]]
     IN <<[a |-> "Case", base |-> b, segs |-> BaseSegs(b), route |-> r, hops |-> route, kf |-> InKFClass(b)]>> \o hops
 
 RECURSIVE SetToSeqOf(_)
